@@ -74,9 +74,14 @@ def rule_text(r):
 
 def vtimezone_text(d):
     out = ['BEGIN:VTIMEZONE', 'TZID:' + d['tzid']]
+    extra = d.get('xlines')        # lines that say nothing about offsets, as exported calendars carry them
+    if extra:
+        out += ['X-LIC-LOCATION:Nowhere/Special', 'LAST-MODIFIED:20240101T000000Z', 'TZURL:http://example.com/tz']
     for o in d['obs']:
         out += ['BEGIN:' + o['kind'], 'DTSTART:' + fmt_dt(o['dtstart']),
                 'TZOFFSETFROM:' + fmt_off(o['off_from']), 'TZOFFSETTO:' + fmt_off(o['off_to'])]
+        if extra:
+            out += ['COMMENT:an observance', 'X-NOTE;X-P=q:kept']
         if o['tzname'] is not None:
             out.append('TZNAME:' + o['tzname'])
         out += rule_text(o['rule'])
@@ -364,6 +369,13 @@ def empty_standard_witness():
 
 
 def definitions(ctx, n_pair, n_chain, n_wild):
+    for n, d in enumerate(definitions_plain(ctx, n_pair, n_chain, n_wild)):
+        if n % 3 == 2:
+            d['xlines'] = True
+        yield d
+
+
+def definitions_plain(ctx, n_pair, n_chain, n_wild):
     yield d23_witness()
     yield empty_standard_witness()
     yield same_name_witness()
